@@ -73,7 +73,7 @@ PlainClauses(e) ==
         THEN {} ELSE {"plain_table_keys_differ"})
   \cup (IF \E i \in 1..Len(e.doc.plain) : en(i)[1] = "h1" /\ en(i)[2] = "k3" /\ en(i)[3] = "nren" THEN {} ELSE {"plain_headline_missing"})
   \cup (IF ~e.out.acs.ok \/ e.out.acs.nonfinite \/ AbsI(e.out.acs.v) >= 2000000000 THEN {}   \* (clamped: outside the logging range)
-        ELSE IF \E i \in 1..Len(e.doc.plain) : en(i)[1] = "h5" /\ en(i)[2] = "k1" /\ AbsI(en(i)[4] - (e.out.acs.v \div 1000)) <= 2 THEN {}
+        ELSE IF \E i \in 1..Len(e.doc.plain) : en(i)[1] = "h5" /\ en(i)[2] = "k1" /\ en(i)[3] # "absent" /\ AbsI(en(i)[4] - (e.out.acs.v \div 1000)) <= 2 THEN {}
         ELSE {"plain_dhw_fraction_differs"})
 
 XmlClauses(e) ==
